@@ -1,0 +1,15 @@
+//go:build verif
+
+package evaluator
+
+import "github.com/textwire/textwire/v2/object"
+
+// VerifReadHook, when set, is told of every identifier lookup of the
+// evaluator: the scope it starts in and the name.
+var VerifReadHook func(env *object.Env, name string)
+
+func verifRead(env *object.Env, name string) {
+	if h := VerifReadHook; h != nil {
+		h(env, name)
+	}
+}
